@@ -190,8 +190,19 @@ UnflattenRanks_ == /\ AsgCall("unflattenRanks")
                      IF \E p \in DOMAIN m : Len(p[d + 1]) # l + 1 THEN Fail("unflattenRanks: coordinate arity")
                      ELSE /\ NewTensor(I.dst, SubSeq(o.ids, 1, d) \o [i \in 1..(l + 1) |-> "unflat"] \o SubSeq(o.ids, d + 2, Len(o.ids)), Unflatten(m, d, l))
                           /\ Adv /\ Rest(<<stack, err, upd>>)
+(* arithmetic on a tuple coordinate (the coordinate of a flattened rank is the tuple of its source coordinates): Python raises a    *)
+(* TypeError for tuple - tuple, tuple * number, number + tuple, ...; only the forms that certainly fail are flagged              *)
+RECURSIVE BadArith(_, _, _)
+BadArith(e, en, st) ==
+  CASE e.e = "bin" /\ e.op \in {"+", "-", "*", "/", "//", "%"} ->
+         \/ BadArith(e.l, en, st) \/ BadArith(e.r, en, st)
+         \/ LET a == Eval(e.l, en, st)  b == Eval(e.r, en, st) IN
+            IF e.op = "+" THEN (a.k = "tup") # (b.k = "tup") ELSE a.k = "tup" \/ b.k = "tup"
+    [] e.e \in {"tuple", "list"} -> \E i \in 1..Len(e.elts) : BadArith(e.elts[i], en, st)
+    [] OTHER -> FALSE
 AssignValue_ == /\ G_AssignValue
-               /\ LET v == Eval(I.e, EnvS, store) IN
+               /\ IF BadArith(I.e, EnvS, store) THEN Fail("arithmetic on a tuple coordinate")
+                  ELSE LET v == Eval(I.e, EnvS, store) IN
                   /\ env' = Bind(env, I.dst, v) /\ store' = Touch(store, RefsIn(v))
                   /\ Adv /\ Rest(<<objs, stack, err, upd>>)
 SetRankIds_ == /\ G_SetRankIds
@@ -199,7 +210,9 @@ SetRankIds_ == /\ G_SetRankIds
                  IF Len(ids) # Len(objs[oid].ids) THEN Fail("setRankIds: wrong number of rank ids")
                  ELSE objs' = [objs EXCEPT ![oid].ids = ids] /\ Adv /\ Rest(<<env, store, stack, err, upd>>)      \* in place: every alias sees it
 AddActivity_ == /\ G_AddActivity
-               /\ LET cv == Eval(I.e.fn.obj, env, store)
+               /\ IF BadArith(Kw(I.e, "spacetime"), env, store) \/ \E i \in 1..Len(I.e.args) : BadArith(I.e.args[i], env, store)
+                  THEN Fail("arithmetic on a tuple coordinate") ELSE
+                  LET cv == Eval(I.e.fn.obj, env, store)
                       pts == [i \in 1..Len(I.e.args) |-> Eval(I.e.args[i], env, store)]
                       stamp == Eval(Kw(I.e, "spacetime"), env, store) IN
                   IF Len(pts) # Len(cv.ar) \/ \E i \in 1..Len(pts) : Len(pts[i].v) # cv.ar[i]
